@@ -44,6 +44,18 @@ def _features(region, delegates_frombuffer=False, alg=None):
             ta, tb = ast.unparse(a), ast.unparse(b)
             if isinstance(op, ast.NotEq) and {ta, tb} == {'len(self)', 'length'}:
                 post = True
+            if isinstance(op, ast.NotEq) and 'length' in (ta, tb):
+                # the same post-check made on the local that holds the window before it is stored
+                other = b if ta == 'length' else a
+                if isinstance(other, ast.Call) and ast.unparse(other.func) == 'len' and len(other.args) == 1 and isinstance(other.args[0], ast.Name):
+                    nm = other.args[0].id
+                    for s_ in region:
+                        for x in ast.walk(s_):
+                            if isinstance(x, ast.Assign) and len(x.targets) == 1 and isinstance(x.targets[0], ast.Name) and x.targets[0].id == nm \
+                                    and x.lineno <= i.lineno and (isinstance(x.value, ast.Subscript) or (isinstance(x.value, ast.Call) and
+                                    isinstance(x.value.func, ast.Attribute) and x.value.func.attr.startswith('getslice'))) \
+                                    and 'length' in ast.unparse(x.value):
+                                post = True
             if isinstance(op, (ast.Gt, ast.GtE, ast.Lt, ast.LtE)):
                 big, small = (a, b) if isinstance(op, (ast.Gt, ast.GtE)) else (b, a)
                 form = _lin_sub(alg.lin(big, i.lineno), alg.lin(small, i.lineno)) if alg is not None else _lin_sub(_lin(big), _lin(small))
@@ -394,6 +406,18 @@ def rule_WIN(ctx):
         for st in stores:
             bit_his, byte_lo, byte_hi = [], None, None
             val = st.value
+            # the object that is sliced may be a local holding the converted bytes (`whole = BitStore.frombytes(...)`; `whole.getslice..`)
+            for _ in range(2):
+                for x in list(ast.walk(val)):
+                    if isinstance(x, ast.Call) and isinstance(x.func, ast.Attribute) and x.func.attr.startswith('getslice') and isinstance(x.func.value, ast.Name):
+                        rv = resolve(x.func.value, st.lineno)
+                        if rv is not x.func.value and isinstance(rv, ast.Call) and 'frombytes' in ast.unparse(rv.func):
+                            val = copy.deepcopy(val)
+                            for y in ast.walk(val):
+                                if isinstance(y, ast.Call) and isinstance(y.func, ast.Attribute) and y.func.attr.startswith('getslice') \
+                                        and isinstance(y.func.value, ast.Name) and y.func.value.id == x.func.value.id:
+                                    y.func.value = copy.deepcopy(rv)
+                            break
             nodes = list(ast.walk(val))
             # look through locals used as the argument of frombytes / as the sliced object
             for x in list(nodes):
@@ -442,7 +466,7 @@ def rule_WIN(ctx):
                 end = lin(ast.parse(' + '.join(f'({v})*({k})' if k != 1 else str(v) for k, v in end.items()) or '0', mode='eval').body, st.lineno) \
                     if all(isinstance(k, str) and k.isidentifier() or k == 1 for k in end) else end
             wvars = {k for k in end if k != 1 and not (isinstance(k, str) and (k.startswith('len(') or '.seek(' in k))}
-            unit = -8 if 'frombytes' in ast.unparse(st.value) else -1      # the size of a bytes source counts bytes
+            unit = -8 if ('frombytes' in ast.unparse(st.value) or byte_lo is not None) else -1      # the size of a bytes source counts bytes
             ok = None
             if not wvars:
                 ok = 'the window ends at the size of the data itself'
